@@ -286,7 +286,13 @@ func (n *Node) newDBFT() {
 				}
 			}
 		}),
-		dbft.WithStopTxFlow[vt.H](func() { n.ev(EvStopTxFlow, nil, "") }),
+		dbft.WithStopTxFlow[vt.H](func() {
+			n.ev(EvStopTxFlow, nil, "")
+			if w.Cfg.HonourStopTxFlow && len(n.Want) > 0 {
+				w.Stat("stoptxflow_dropped_wants")
+				n.Want = nil
+			}
+		}),
 		// the application's own policy check of a proposal: nonces in the reserved range are rejected by every node
 		// (only fabricated proposals carry them, an honest primary's nonce comes from 64 random bits)
 		dbft.WithVerifyPrepareRequest[vt.H](func(p dbft.ConsensusPayload[vt.H]) error {
